@@ -309,7 +309,7 @@ func genPathD(r *rng.R) []pcmd {
 				break
 			}
 		}
-		switch r.Intn(9) {
+		switch r.Intn(10) {
 		case 0, 1:
 			d = append(d, pcmd{c: 'L', a: []float64{nx[0], nx[1]}})
 		case 2:
@@ -336,6 +336,27 @@ func genPathD(r *rng.R) []pcmd {
 			prevDir = [2]float64{0.123, 0.457}
 		case 6:
 			d = append(d, pcmd{c: 'C', a: []float64{q4(r, 0, 30), q4(r, 0, 30), q4(r, 0, 30), q4(r, 0, 30), nx[0], nx[1]}})
+			prevDir = [2]float64{0.123, 0.457}
+		case 8:
+			// smooth curves, often chained (the reflected control point is that of the previous curve of the same kind)
+			k := 1 + r.Intn(3)
+			kind := r.Intn(4)
+			for j := 0; j < k; j++ {
+				if j > 0 {
+					cur = nx
+					nx = [2]float64{q4(r, 0, 30), q4(r, 0, 30)}
+				}
+				switch kind {
+				case 0:
+					d = append(d, pcmd{c: 'S', a: []float64{q4(r, 0, 30), q4(r, 0, 30), nx[0], nx[1]}})
+				case 1:
+					d = append(d, pcmd{c: 's', a: []float64{q4(r, -10, 10), q4(r, -10, 10), nx[0] - cur[0], nx[1] - cur[1]}})
+				case 2:
+					d = append(d, pcmd{c: 'T', a: []float64{nx[0], nx[1]}})
+				default:
+					d = append(d, pcmd{c: 't', a: []float64{nx[0] - cur[0], nx[1] - cur[1]}})
+				}
+			}
 			prevDir = [2]float64{0.123, 0.457}
 		case 7:
 			// radii large enough that no scaling of the radii is needed: |d|/2 <= r
@@ -902,6 +923,14 @@ func (s shape) coq() string {
 			xs = append(xs, "(CC "+qf(c.a[0])+" "+qf(c.a[1])+" "+qf(c.a[2])+" "+qf(c.a[3])+" "+qf(c.a[4])+" "+qf(c.a[5])+")")
 		case 'A':
 			xs = append(xs, "(CA "+qf(c.a[0])+" "+qf(c.a[1])+" "+qf(c.a[2])+" "+boolS(c.l)+" "+boolS(c.s)+" "+qf(c.a[3])+" "+qf(c.a[4])+")")
+		case 'S':
+			xs = append(xs, "(CS "+qf(c.a[0])+" "+qf(c.a[1])+" "+qf(c.a[2])+" "+qf(c.a[3])+")")
+		case 's':
+			xs = append(xs, "(Cs "+qf(c.a[0])+" "+qf(c.a[1])+" "+qf(c.a[2])+" "+qf(c.a[3])+")")
+		case 'T':
+			xs = append(xs, "(CT "+qf(c.a[0])+" "+qf(c.a[1])+")")
+		case 't':
+			xs = append(xs, "(Ct "+qf(c.a[0])+" "+qf(c.a[1])+")")
 		case 'Z':
 			xs = append(xs, "CZ")
 		}
